@@ -1,6 +1,813 @@
+(* FnTestMatch_proofs.v — lemmas about model/FnTestMatch.v
+   (function_test/run.py: the FunctionTest comparator and verdict functions).
+
+   Contents
+     1. basics: mand, membership, lookups, depth, fuel
+     2. the declarative relation [equiv E K] ("equal, nothing missing, nothing
+        extra, modulo the set / map directives"), parameterised by the
+        equality [E] used between members of set-compared lists and by the
+        reading [K] of a map-directed value as a keyed collection
+     3. tmatch_exact: the comparator accepts exactly [equiv py_eq list_to_object]
+     4. the strict reading [equiv strict_eq keyed_list], its relation to the
+        exact one, the side conditions under which they coincide, and the
+        witnesses where they do not (the findings)
+     5. deviations: [apart], [deviates1], single_deviation_fails (both sides)
+     6. the outcome matcher
+     7. the verdict functions, MockApi, _merge_overlay *)
 From Koreo Require Import Json Outcome FnTestMatch.
+From Coq Require Import Lia Arith Permutation.
+Local Open Scope nat_scope.
 Local Open Scope list_scope.
+
+Arguments dict_match : simpl never.
+Arguments entries_match : simpl never.
+Arguments entry_match : simpl never.
+Arguments list_match : simpl never.
+Arguments set_match : simpl never.
+Arguments set_keys : simpl never.
+Arguments map_fields : simpl never.
+Arguments list_to_object : simpl never.
+Arguments py_eq : simpl never.
+
+(* ------------------------------------------------------------------ *)
+(* 1. basics                                                           *)
+(* ------------------------------------------------------------------ *)
+
 Lemma mand_true : forall x y, mand x y = MDone true <-> x = MDone true /\ y = MDone true.
 Proof.
-  intros [[|]| |] [[|]| |]; cbn; split; intros H; try discriminate; try (destruct H; discriminate); auto.
+  intros [[|]| |] [[|]| |]; cbn; split; intros H; try discriminate;
+    try (destruct H; discriminate); auto.
 Qed.
+
+Lemma mand_not_fuel : forall x y, x <> MFuel -> y <> MFuel -> mand x y <> MFuel.
+Proof. intros [[|]| |] [[|]| |]; cbn; congruence. Qed.
+
+Lemma mand_done : forall x y a b, x = MDone a -> y = MDone b -> mand x y = MDone (a && b).
+Proof. intros; subst; reflexivity. Qed.
+
+Lemma mem_str_In k l : mem_str k l = true <-> In k l.
+Proof.
+  induction l as [|x l IH]; cbn; [split; [discriminate|tauto]|].
+  rewrite Bool.orb_true_iff, IH, String.eqb_eq. split; intros [H|H]; auto.
+Qed.
+
+Lemma lookup_In {A} k (kvs : list (string * A)) v : lookup k kvs = Some v -> In k (map fst kvs).
+Proof.
+  induction kvs as [|[k' v'] r IH]; cbn; [discriminate|].
+  destruct (String.eqb k k') eqn:E; [apply String.eqb_eq in E; auto|auto].
+Qed.
+
+Lemma In_lookup {A} k (kvs : list (string * A)) : In k (map fst kvs) -> exists v, lookup k kvs = Some v.
+Proof.
+  induction kvs as [|[k' v'] r IH]; cbn; [tauto|].
+  intros [H|H]; destruct (String.eqb k k') eqn:E; eauto.
+  subst. now rewrite String.eqb_refl in E.
+Qed.
+
+Lemma lookup_In_pair {A} k (kvs : list (string * A)) v : lookup k kvs = Some v -> In (k, v) kvs.
+Proof.
+  induction kvs as [|[k' v'] r IH]; cbn; [discriminate|].
+  destruct (String.eqb k k') eqn:E; [apply String.eqb_eq in E; intros [= ->]; subst; auto|auto].
+Qed.
+
+Lemma lookup_none_notin {A} k (kvs : list (string * A)) : lookup k kvs = None <-> ~ In k (map fst kvs).
+Proof.
+  split.
+  - intros H Hin. apply In_lookup in Hin as [v Hv]. congruence.
+  - intros H. destruct (lookup k kvs) eqn:E; [|reflexivity]. apply lookup_In in E. tauto.
+Qed.
+
+Lemma plain_keys_In k kvs : In k (plain_keys kvs) <-> In k (map fst kvs) /\ is_directive k = false.
+Proof.
+  unfold plain_keys. rewrite filter_In, Bool.negb_true_iff. tauto.
+Qed.
+
+(* ---------- depth ---------- *)
+
+Definition kvs_depth (kvs : list (string * json)) : nat :=
+  (fix go (l : list (string * json)) : nat :=
+     match l with [] => O | (_, v) :: r => Nat.max (depth v) (go r) end) kvs.
+
+Lemma depth_map kvs : depth (JMap kvs) = S (kvs_depth kvs).
+Proof. reflexivity. Qed.
+
+Lemma depth_pos j : 1 <= depth j.
+Proof. destruct j; cbn; lia. Qed.
+
+Lemma kvs_depth_In kvs k v : In (k, v) kvs -> depth v <= kvs_depth kvs.
+Proof.
+  induction kvs as [|[k' v'] r IH]; cbn; [tauto|].
+  intros [[= -> ->]|H]; [lia|]. specialize (IH H). unfold kvs_depth in IH. lia.
+Qed.
+
+Lemma kvs_depth_le kvs d : (forall k v, In (k, v) kvs -> depth v <= d) -> kvs_depth kvs <= d.
+Proof.
+  induction kvs as [|[k' v'] r IH]; cbn; intros H; [lia|].
+  assert (depth v' <= d) by (apply (H k'); auto).
+  assert (kvs_depth r <= d) by (apply IH; intros; eapply H; eauto).
+  unfold kvs_depth in *. lia.
+Qed.
+
+Lemma depth_lookup k kvs v : lookup k kvs = Some v -> depth v < depth (JMap kvs).
+Proof.
+  intros H. apply lookup_In_pair, kvs_depth_In in H. rewrite depth_map. lia.
+Qed.
+
+Lemma depth_in_list l x : In x l -> depth x < depth (JList l).
+Proof.
+  cbn. induction l as [|y l IH]; cbn; [tauto|]. intros [->|H]; [lia|]. specialize (IH H). lia.
+Qed.
+
+Lemma depth_nth l i x : nth_error l i = Some x -> depth x < depth (JList l).
+Proof. intros H. apply depth_in_list. eapply nth_error_In; eauto. Qed.
+
+Lemma set_key_In {A} k (v : A) acc k' v' :
+  In (k', v') (set_key k v acc) -> (k', v') = (k, v) \/ In (k', v') acc.
+Proof.
+  induction acc as [|[k0 v0] r IH]; cbn.
+  - intros [H|[]]; auto.
+  - destruct (String.eqb k k0) eqn:E.
+    + apply String.eqb_eq in E; subst. cbn. intros [[= <- <-]|H]; auto.
+    + cbn. intros [H|H]; auto. destruct (IH H); auto.
+Qed.
+
+Section WithKeyText.
+  Variable key_text : json -> string.
+  Notation keyed := (keyed key_text).
+  Notation list_to_object := (list_to_object key_text).
+  Notation tmatch_fuel := (tmatch_fuel key_text).
+  Notation tmatch := (tmatch key_text).
+  Notation dict_match := (dict_match key_text).
+  Notation entries_match := (entries_match key_text).
+  Notation entry_match := (entry_match key_text).
+
+  Lemma keyed_In fields l : forall acc o k v,
+    keyed fields l acc = Some o -> In (k, v) o -> In v l \/ In (k, v) acc.
+  Proof.
+    induction l as [|it r IH]; cbn; intros acc o k v H Hin.
+    - injection H as <-. auto.
+    - destruct (item_key key_text it fields) as [k0|]; [|discriminate].
+      destruct (IH _ _ _ _ H Hin) as [H1|H1]; auto.
+      apply set_key_In in H1 as [[= -> ->]|H1]; auto.
+  Qed.
+
+  Lemma iter_items_depth v items x :
+    iter_items v = Some items -> In x items -> depth x <= Nat.max (depth v - 1) 1.
+  Proof.
+    destruct v; cbn; try discriminate; intros [= <-] Hin.
+    - apply in_map_iff in Hin as [c [<- _]]. cbn. lia.
+    - apply (depth_in_list l) in Hin. cbn in *. lia.
+    - apply in_map_iff in Hin as [c [<- _]]. cbn. lia.
+  Qed.
+
+  (* the synthesised dict is no deeper than max (depth v) 2 *)
+  Lemma depth_list_to_object fields v o :
+    list_to_object fields v = Some o -> depth (JMap o) <= Nat.max (depth v) 2.
+  Proof.
+    unfold FnTestMatch.list_to_object. destruct (iter_items v) as [items|] eqn:Ei; [|discriminate].
+    intros H. rewrite depth_map.
+    assert (kvs_depth o <= Nat.max (depth v - 1) 1).
+    { apply kvs_depth_le. intros k x Hin.
+      destruct (keyed_In _ _ _ _ _ _ H Hin) as [H1|[]].
+      eapply iter_items_depth; eauto. }
+    pose proof (depth_pos v). lia.
+  Qed.
+
+  Lemma map_fields_go_nonempty m mf k f :
+    map_fields_go m = Some mf -> lookup k mf = Some f -> m <> [].
+  Proof. destruct m; cbn; [intros [= <-]; discriminate|discriminate]. Qed.
+
+  (* a map directive that names a key makes the object at least 3 deep *)
+  Lemma map_directed_depth tk mf k f :
+    map_fields tk = Some mf -> lookup k mf = Some f -> 3 <= depth (JMap tk).
+  Proof.
+    unfold map_fields. destruct (lookup K_MAP tk) as [[| | | | | |m]|] eqn:E; try discriminate.
+    - intros H1 H2. pose proof (map_fields_go_nonempty _ _ _ _ H1 H2) as Hne.
+      apply depth_lookup in E. destruct m as [|[k0 v0] r]; [congruence|].
+      cbn in E. pose proof (depth_pos v0). cbn. lia.
+    - intros [= <-]. discriminate.
+  Qed.
+
+  (* ---------- the fuel supplied by [tmatch] suffices ---------- *)
+
+  Lemma entries_not_fuel rec sk mf tk ak ks :
+    (forall k v w, In k ks -> lookup k tk = Some v -> lookup k ak = Some w ->
+                   entry_match rec sk mf k v w <> MFuel) ->
+    entries_match rec sk mf tk ak ks <> MFuel.
+  Proof.
+    induction ks as [|k r IH]; intros H; unfold FnTestMatch.entries_match; [discriminate|].
+    fold (entries_match rec sk mf tk ak r).
+    apply mand_not_fuel.
+    - destruct (lookup k tk) eqn:E1; [|discriminate]. destruct (lookup k ak) eqn:E2; [|discriminate].
+      apply H; cbn; auto.
+    - apply IH. intros; eapply H; cbn; eauto.
+  Qed.
+
+  Lemma list_match_not_fuel rec tl : forall al,
+    (forall x y, In x tl -> rec x y false <> MFuel) -> list_match rec tl al <> MFuel.
+  Proof.
+    induction tl as [|x tr IH]; intros al H; unfold FnTestMatch.list_match; [discriminate|].
+    destruct al as [|y ar]; [discriminate|]. fold (list_match rec tr ar).
+    apply mand_not_fuel; [apply H; cbn; auto|apply IH; intros; apply H; cbn; auto].
+  Qed.
+
+  Theorem tmatch_fuel_suffices : forall n t a s, depth t <= n -> tmatch_fuel n t a s <> MFuel.
+  Proof.
+    induction n as [|n IH]; intros t a s Hd; [pose proof (depth_pos t); lia|].
+    destruct t, a; cbn [FnTestMatch.tmatch_fuel]; try discriminate.
+    - (* list, list *)
+      destruct s; [discriminate|].
+      destruct (Nat.eqb _ _); [|discriminate].
+      apply list_match_not_fuel. intros x y Hin. apply IH.
+      apply depth_in_list in Hin. lia.
+    - (* map, map *)
+      unfold FnTestMatch.dict_match.
+      destruct (set_keys kvs) as [sk|]; [|discriminate].
+      destruct (map_fields kvs) as [mf|] eqn:Emf; [|discriminate].
+      apply mand_not_fuel; [discriminate|].
+      apply entries_not_fuel. intros k v w _ Hv Hw.
+      unfold FnTestMatch.entry_match.
+      destruct (lookup k mf) as [fields|] eqn:Ef.
+      + destruct (list_to_object fields v) as [tobj|] eqn:E1; [|discriminate].
+        destruct (list_to_object fields w) as [aobj|]; [|discriminate].
+        apply IH. apply depth_list_to_object in E1.
+        pose proof (map_directed_depth _ _ _ _ Emf Ef). apply depth_lookup in Hv. lia.
+      + apply IH. apply depth_lookup in Hv. lia.
+  Qed.
+
+  Corollary tmatch_never_out_of_fuel t a : tmatch t a <> MFuel.
+  Proof. apply tmatch_fuel_suffices. lia. Qed.
+
+  (* ------------------------------------------------------------------ *)
+  (* 2. the declarative relation                                          *)
+  (* ------------------------------------------------------------------ *)
+
+  (* values compared with Python == : null, numbers, strings *)
+  Definition plain_scalar (j : json) : bool :=
+    match j with JNull | JInt _ | JFloat _ _ | JStr _ => true | _ => false end.
+
+  Section Equiv.
+    (* equality between members of set-compared lists *)
+    Variable E : json -> json -> bool.
+    (* reading of a map-directed value as a collection keyed by the fields *)
+    Variable K : list json -> json -> option (list (string * json)).
+
+    (* [equiv s t a]: the actual value [a] is what the expectation [t]
+       describes; [s] says that [t] sits under a key its object lists in
+       x-koreo-compare-as-set *)
+    Inductive equiv : bool -> json -> json -> Prop :=
+    | Eq_scalar s t a :
+        plain_scalar t = true -> plain_scalar a = true -> py_eq t a = true -> equiv s t a
+    | Eq_bool s b : equiv s (JBool b) (JBool b)
+    | Eq_list tl al :
+        List.length tl = List.length al ->
+        (forall i x y, nth_error tl i = Some x -> nth_error al i = Some y -> equiv false x y) ->
+        equiv false (JList tl) (JList al)
+    | Eq_set tl al :
+        Forall (fun x => hashable x = true) tl -> Forall (fun x => hashable x = true) al ->
+        (forall x, In x tl -> exists y, In y al /\ E x y = true) ->
+        (forall y, In y al -> exists x, In x tl /\ E x y = true) ->
+        equiv true (JList tl) (JList al)
+    | Eq_map s tk ak sk mf :
+        set_keys tk = Some sk -> map_fields tk = Some mf ->
+        (* nothing missing, nothing extra *)
+        (forall k, is_directive k = false -> (In k (map fst tk) <-> In k (map fst ak))) ->
+        (* a map-directed key holds a keyed collection on both sides ... *)
+        (forall k v w fields, is_directive k = false ->
+           lookup k tk = Some v -> lookup k ak = Some w -> lookup k mf = Some fields ->
+           K fields v <> None /\ K fields w <> None) ->
+        (* ... and the two collections are equivalent as objects *)
+        (forall k v w fields tobj aobj, is_directive k = false ->
+           lookup k tk = Some v -> lookup k ak = Some w -> lookup k mf = Some fields ->
+           K fields v = Some tobj -> K fields w = Some aobj -> equiv false (JMap tobj) (JMap aobj)) ->
+        (* every other key: equivalent values, as a set if so directed *)
+        (forall k v w, is_directive k = false ->
+           lookup k tk = Some v -> lookup k ak = Some w -> lookup k mf = None ->
+           equiv (mem_str k sk) v w) ->
+        equiv s (JMap tk) (JMap ak).
+  End Equiv.
+
+  (* ------------------------------------------------------------------ *)
+  (* 3. the comparator accepts exactly [equiv py_eq list_to_object]       *)
+  (* ------------------------------------------------------------------ *)
+
+  Notation equivX := (equiv py_eq list_to_object).
+
+  Lemma entries_match_true rec sk mf tk ak ks :
+    entries_match rec sk mf tk ak ks = MDone true <->
+    (forall k v w, In k ks -> lookup k tk = Some v -> lookup k ak = Some w ->
+                   entry_match rec sk mf k v w = MDone true).
+  Proof.
+    induction ks as [|k r IH]; unfold FnTestMatch.entries_match.
+    - split; [intros _ k v w []|reflexivity].
+    - fold (entries_match rec sk mf tk ak r). rewrite mand_true, IH. split.
+      + intros [H1 H2] k' v w [<-|Hin] Hv Hw; [now rewrite Hv, Hw in H1|eauto].
+      + intros H. split.
+        * destruct (lookup k tk) eqn:E1; [|reflexivity]. destruct (lookup k ak) eqn:E2; [|reflexivity].
+          apply H; cbn; auto.
+        * intros; eapply H; cbn; eauto.
+  Qed.
+
+  Lemma list_match_true rec tl : forall al,
+    List.length tl = List.length al ->
+    (list_match rec tl al = MDone true <->
+     forall i x y, nth_error tl i = Some x -> nth_error al i = Some y -> rec x y false = MDone true).
+  Proof.
+    induction tl as [|x tr IH]; intros [|y ar] Hl; cbn in Hl; try discriminate;
+      unfold FnTestMatch.list_match.
+    - split; [intros _ [|i] ? ? H; discriminate|reflexivity].
+    - fold (list_match rec tr ar). rewrite mand_true, (IH ar) by lia. split.
+      + intros [H1 H2] [|i] x' y' Hx Hy; cbn in *; [congruence|eauto].
+      + intros H. split; [apply (H 0); reflexivity|]. intros i. apply (H (S i)).
+  Qed.
+
+  Lemma keys_ok_iff tk ak :
+    forallb (fun k => mem_str k (map fst ak)) (plain_keys tk) &&
+    forallb (fun k => mem_str k (map fst tk)) (plain_keys ak) = true <->
+    (forall k, is_directive k = false -> (In k (map fst tk) <-> In k (map fst ak))).
+  Proof.
+    rewrite Bool.andb_true_iff, !forallb_forall. split.
+    - intros [H1 H2] k Hk. split; intros Hin.
+      + apply mem_str_In, H1, plain_keys_In; auto.
+      + apply mem_str_In, H2, plain_keys_In; auto.
+    - intros H. split; intros k Hk; apply plain_keys_In in Hk as [Hin Hd]; apply mem_str_In, (H k Hd), Hin.
+  Qed.
+
+  Lemma dyadic_eqb_sym a b : dyadic_eqb a b = dyadic_eqb b a.
+  Proof. destruct a, b. unfold dyadic_eqb. rewrite Z.min_comm. apply Z.eqb_sym. Qed.
+
+  Lemma py_eq_sym_hashable x y : hashable x = true -> hashable y = true -> py_eq x y = py_eq y x.
+  Proof.
+    intros Hx Hy.
+    destruct x, y; cbn in Hx, Hy; try discriminate; unfold py_eq; cbn -[dyadic_eqb];
+      try reflexivity; try apply dyadic_eqb_sym; apply String.eqb_sym.
+  Qed.
+
+  Lemma set_match_iff tl al :
+    set_match tl al = true <->
+    Forall (fun x => hashable x = true) tl /\ Forall (fun x => hashable x = true) al /\
+    (forall x, In x tl -> exists y, In y al /\ py_eq x y = true) /\
+    (forall y, In y al -> exists x, In x tl /\ py_eq x y = true).
+  Proof.
+    unfold FnTestMatch.set_match, in_pyeq.
+    rewrite !Bool.andb_true_iff, !forallb_forall, !Forall_forall. split.
+    - intros [[[H1 H2] H3] H4]. repeat split; auto.
+      + intros x Hx. apply H3, existsb_exists in Hx. exact Hx.
+      + intros y Hy. pose proof (H4 y Hy) as H. apply existsb_exists in H as [x [Hx Hxy]].
+        exists x. split; auto. rewrite py_eq_sym_hashable; auto.
+    - intros (H1 & H2 & H3 & H4). repeat split; auto.
+      + intros x Hx. apply existsb_exists. auto.
+      + intros y Hy. apply existsb_exists. destruct (H4 y Hy) as [x [Hx Hxy]].
+        exists x. split; auto. rewrite py_eq_sym_hashable; auto.
+  Qed.
+
+  Ltac inv_equiv H := inversion H; subst; clear H; try discriminate; try (cbn in *; discriminate).
+
+  Theorem tmatch_fuel_exact : forall n t a s,
+    depth t <= n -> (tmatch_fuel n t a s = MDone true <-> equivX s t a).
+  Proof.
+    induction n as [|n IH]; intros t a s Hd; [pose proof (depth_pos t); lia|].
+    destruct t, a; cbn [FnTestMatch.tmatch_fuel];
+      (* mismatched kinds: the comparator says False and no rule applies *)
+      try solve [split; [discriminate|intros H; inv_equiv H]];
+      (* two plain scalars *)
+      try solve [split; [intros H; apply Eq_scalar; try reflexivity; congruence
+                        |intros H; inv_equiv H; f_equal; assumption]].
+    - (* bool, bool *)
+      split.
+      + intros [= H]. apply Bool.eqb_prop in H. subst. apply Eq_bool.
+      + intros H. inv_equiv H. now rewrite Bool.eqb_reflx.
+    - (* list, list *)
+      destruct s.
+      + split.
+        * intros [= H]. apply set_match_iff in H as (H1 & H2 & H3 & H4). now apply Eq_set.
+        * intros H. inv_equiv H. f_equal. apply set_match_iff. auto.
+      + destruct (Nat.eqb (List.length l) (List.length l0)) eqn:El.
+        * apply Nat.eqb_eq in El. rewrite (list_match_true _ _ _ El). split.
+          -- intros H. apply Eq_list; auto. intros i x y Hx Hy. apply IH; eauto.
+             apply depth_nth in Hx. lia.
+          -- intros H. inv_equiv H. intros i x y Hx Hy. apply IH; eauto.
+             apply depth_nth in Hx. lia.
+        * apply Nat.eqb_neq in El. split; [discriminate|]. intros H. inv_equiv H. lia.
+    - (* map, map *)
+      unfold FnTestMatch.dict_match. split.
+      + destruct (set_keys kvs) as [sk|] eqn:Esk; [|discriminate].
+        destruct (map_fields kvs) as [mf|] eqn:Emf; [|discriminate].
+        rewrite mand_true. intros [Hk He]. injection Hk as Hk. pose proof (proj1 (keys_ok_iff _ _) Hk) as Hk'.
+        rewrite entries_match_true in He.
+        assert (Hent : forall k v w, is_directive k = false -> lookup k kvs = Some v ->
+                         lookup k kvs0 = Some w -> entry_match (tmatch_fuel n) sk mf k v w = MDone true).
+        { intros k v w Hdk Hv Hw. apply He; auto. apply plain_keys_In. split; auto.
+          eapply lookup_In; eauto. }
+        apply Eq_map with (sk := sk) (mf := mf); auto.
+        * intros k v w fields Hdk Hv Hw Hf. specialize (Hent k v w Hdk Hv Hw).
+          unfold FnTestMatch.entry_match in Hent. rewrite Hf in Hent.
+          destruct (list_to_object fields v); [|discriminate].
+          destruct (list_to_object fields w); [|discriminate]. split; discriminate.
+        * intros k v w fields tobj aobj Hdk Hv Hw Hf Ht Ha. specialize (Hent k v w Hdk Hv Hw).
+          unfold FnTestMatch.entry_match in Hent. rewrite Hf, Ht, Ha in Hent.
+          apply IH in Hent; auto. apply depth_list_to_object in Ht.
+          pose proof (map_directed_depth _ _ _ _ Emf Hf). apply depth_lookup in Hv. lia.
+        * intros k v w Hdk Hv Hw Hf. specialize (Hent k v w Hdk Hv Hw).
+          unfold FnTestMatch.entry_match in Hent. rewrite Hf in Hent.
+          apply IH in Hent; auto. apply depth_lookup in Hv. lia.
+      + intros H. inversion H as [? ? ? Hp|?|?|?|s' tk ak sk mf Hsk Hmf Hk Hn Hm Ho]; subst; [discriminate|].
+        rewrite Hsk, Hmf. apply mand_true. split.
+        * f_equal. apply keys_ok_iff. exact Hk.
+        * apply entries_match_true. intros k v w Hin Hv Hw.
+          apply plain_keys_In in Hin as [_ Hdk].
+          unfold FnTestMatch.entry_match. destruct (lookup k mf) as [fields|] eqn:Hf.
+          -- destruct (Hn k v w fields Hdk Hv Hw Hf) as [N1 N2].
+             destruct (list_to_object fields v) as [tobj|] eqn:Et; [|congruence].
+             destruct (list_to_object fields w) as [aobj|] eqn:Ea; [|congruence].
+             apply IH; [|eapply Hm; eauto].
+             apply depth_list_to_object in Et.
+             pose proof (map_directed_depth _ _ _ _ Hmf Hf). apply depth_lookup in Hv. lia.
+          -- apply IH; [|eapply Ho; eauto]. apply depth_lookup in Hv. lia.
+  Qed.
+
+  (* the comparator passes exactly when the actual value is what the
+     expectation describes (reading: members of set-compared lists are equal
+     under Python ==, a map-directed value is whatever _list_to_object makes
+     of it).  No side condition. *)
+  Theorem tmatch_exact t a : tmatch t a = MDone true <-> equivX false t a.
+  Proof. apply tmatch_fuel_exact. lia. Qed.
+
+
+  (* ------------------------------------------------------------------ *)
+  (* 5. deviations                                                        *)
+  (* ------------------------------------------------------------------ *)
+
+  (* no directive-named key anywhere *)
+  Fixpoint dfree (j : json) : bool :=
+    match j with
+    | JList l => forallb dfree l
+    | JMap kvs =>
+        (fix go (l : list (string * json)) : bool :=
+           match l with
+           | [] => true
+           | (k, v) :: r => negb (is_directive k) && dfree v && go r
+           end) kvs
+    | _ => true
+    end.
+
+  Lemma dfree_map_In kvs k v :
+    dfree (JMap kvs) = true -> In (k, v) kvs -> is_directive k = false /\ dfree v = true.
+  Proof.
+    induction kvs as [|[k0 v0] r IH]; cbn; [tauto|].
+    rewrite !Bool.andb_true_iff, Bool.negb_true_iff. intros [[H1 H2] H3] [[= -> ->]|Hin]; auto.
+  Qed.
+
+  Lemma dfree_lookup kvs k v : dfree (JMap kvs) = true -> lookup k kvs = Some v -> dfree v = true.
+  Proof. intros H Hl. apply lookup_In_pair in Hl. eapply dfree_map_In; eauto. Qed.
+
+  Lemma dfree_no_directive kvs d : dfree (JMap kvs) = true -> is_directive d = true -> lookup d kvs = None.
+  Proof.
+    intros H Hd. destruct (lookup d kvs) eqn:E; [|reflexivity].
+    apply lookup_In_pair in E. destruct (dfree_map_In _ _ _ H E). congruence.
+  Qed.
+
+  Lemma dfree_set_keys kvs : dfree (JMap kvs) = true -> set_keys kvs = Some [].
+  Proof. intros H. unfold FnTestMatch.set_keys. now rewrite (dfree_no_directive _ K_SET H). Qed.
+
+  Lemma dfree_map_fields kvs : dfree (JMap kvs) = true -> map_fields kvs = Some [].
+  Proof. intros H. unfold FnTestMatch.map_fields. now rewrite (dfree_no_directive _ K_MAP H). Qed.
+
+  Lemma dfree_nth l i x : dfree (JList l) = true -> nth_error l i = Some x -> dfree x = true.
+  Proof. cbn. rewrite forallb_forall. intros H Hn. apply H. eapply nth_error_In; eauto. Qed.
+
+  (* an expectation without directives never makes the comparator raise *)
+  Lemma entries_done rec sk mf tk ak ks :
+    (forall k v w, In k ks -> lookup k tk = Some v -> lookup k ak = Some w ->
+                   exists b, entry_match rec sk mf k v w = MDone b) ->
+    exists b, entries_match rec sk mf tk ak ks = MDone b.
+  Proof.
+    induction ks as [|k r IH]; intros H; unfold FnTestMatch.entries_match; [eauto|].
+    fold (entries_match rec sk mf tk ak r).
+    destruct IH as [b2 Hb2]; [intros; eapply H; cbn; eauto|]. rewrite Hb2.
+    destruct (lookup k tk) eqn:E1; [|cbn; eauto]. destruct (lookup k ak) eqn:E2; [|cbn; eauto].
+    destruct (H k _ _ (or_introl eq_refl) E1 E2) as [b1 Hb1]. rewrite Hb1. cbn. eauto.
+  Qed.
+
+  Lemma list_match_done rec tl : forall al,
+    (forall x y, In x tl -> exists b, rec x y false = MDone b) -> exists b, list_match rec tl al = MDone b.
+  Proof.
+    induction tl as [|x tr IH]; intros al H; unfold FnTestMatch.list_match; [eauto|].
+    destruct al as [|y ar]; [eauto|]. fold (list_match rec tr ar).
+    destruct (H x y (or_introl eq_refl)) as [b1 Hb1]. destruct (IH ar) as [b2 Hb2]; [intros; apply H; cbn; auto|].
+    rewrite Hb1, Hb2. cbn. eauto.
+  Qed.
+
+  Lemma dfree_no_raise : forall n t a s,
+    dfree t = true -> depth t <= n -> exists b, tmatch_fuel n t a s = MDone b.
+  Proof.
+    induction n as [|n IH]; intros t a s Hf Hd; [pose proof (depth_pos t); lia|].
+    destruct t, a; cbn [FnTestMatch.tmatch_fuel]; eauto.
+    - destruct s; eauto. destruct (Nat.eqb _ _); eauto.
+      apply list_match_done. intros x y Hin. apply IH.
+      + cbn in Hf. rewrite forallb_forall in Hf. auto.
+      + apply depth_in_list in Hin. lia.
+    - unfold FnTestMatch.dict_match. rewrite (dfree_set_keys _ Hf), (dfree_map_fields _ Hf).
+      destruct (entries_done (tmatch_fuel n) [] [] kvs kvs0 (plain_keys kvs)) as [b Hb].
+      + intros k v w _ Hv Hw. unfold FnTestMatch.entry_match. cbn [lookup]. apply IH.
+        * eapply dfree_lookup; eauto.
+        * apply depth_lookup in Hv. lia.
+      + rewrite Hb. cbn. eauto.
+  Qed.
+
+  (* kinds of values the comparator keeps apart *)
+  Definition kind (j : json) : nat :=
+    match j with JBool _ => 1 | JList _ => 2 | JMap _ => 3 | _ => 0 end.
+
+  Lemma plain_scalar_kind j : plain_scalar j = true <-> kind j = 0.
+  Proof. destruct j; cbn; split; congruence. Qed.
+
+  Lemma equiv_kind E K s t a : equiv E K s t a -> kind t = kind a.
+  Proof.
+    destruct 1; try reflexivity.
+    apply plain_scalar_kind in H, H0. congruence.
+  Qed.
+
+  (* ---------- Python == on null / numbers / strings is an equivalence ---------- *)
+
+  Lemma dyadic_eqb_spec m1 e1 m2 e2 :
+    dyadic_eqb (m1, e1) (m2, e2) = true <->
+    (forall e0, (e0 <= e1)%Z -> (e0 <= e2)%Z -> (m1 * 2 ^ (e1 - e0) = m2 * 2 ^ (e2 - e0))%Z).
+  Proof.
+    unfold dyadic_eqb. rewrite Z.eqb_eq. set (e := Z.min e1 e2). split.
+    - intros H e0 H1 H2.
+      assert (He : (e0 <= e)%Z) by (unfold e; lia).
+      replace (e1 - e0)%Z with ((e1 - e) + (e - e0))%Z by lia.
+      replace (e2 - e0)%Z with ((e2 - e) + (e - e0))%Z by lia.
+      rewrite !Z.pow_add_r by (unfold e; lia). rewrite !Z.mul_assoc, H. reflexivity.
+    - intros H. apply H; unfold e; lia.
+  Qed.
+
+  Lemma dyadic_eqb_weak m1 e1 m2 e2 e0 :
+    (e0 <= e1)%Z -> (e0 <= e2)%Z -> (m1 * 2 ^ (e1 - e0) = m2 * 2 ^ (e2 - e0))%Z ->
+    dyadic_eqb (m1, e1) (m2, e2) = true.
+  Proof.
+    intros H1 H2 H. unfold dyadic_eqb. rewrite Z.eqb_eq. set (e := Z.min e1 e2).
+    assert (He : (e0 <= e)%Z) by (unfold e; lia).
+    replace (e1 - e0)%Z with ((e1 - e) + (e - e0))%Z in H by lia.
+    replace (e2 - e0)%Z with ((e2 - e) + (e - e0))%Z in H by lia.
+    rewrite !Z.pow_add_r in H by (unfold e; lia). rewrite !Z.mul_assoc in H.
+    apply Z.mul_reg_r in H; [exact H|]. apply Z.pow_nonzero; lia.
+  Qed.
+
+  Lemma dyadic_eqb_eucl a b c : dyadic_eqb a b = true -> dyadic_eqb a c = true -> dyadic_eqb b c = true.
+  Proof.
+    destruct a as [m0 e0], b as [m1 e1], c as [m2 e2]. intros H1 H2.
+    set (e := Z.min e0 (Z.min e1 e2)).
+    apply (dyadic_eqb_weak _ _ _ _ e); [unfold e; lia|unfold e; lia|].
+    rewrite dyadic_eqb_spec in H1, H2.
+    rewrite <- (H1 e), <- (H2 e) by (unfold e; lia). reflexivity.
+  Qed.
+
+  Lemma py_eq_plain_eucl u x y :
+    plain_scalar u = true -> plain_scalar x = true -> plain_scalar y = true ->
+    py_eq u x = true -> py_eq u y = true -> py_eq x y = true.
+  Proof.
+    intros Hu Hx Hy.
+    destruct u, x, y; cbn in Hu, Hx, Hy; try discriminate; unfold py_eq; cbn -[dyadic_eqb];
+      try discriminate; try reflexivity; try apply dyadic_eqb_eucl.
+    rewrite !String.eqb_eq. congruence.
+  Qed.
+
+  Lemma py_eq_plain_sym x y : plain_scalar x = true -> plain_scalar y = true -> py_eq x y = py_eq y x.
+  Proof. intros Hx Hy. apply py_eq_sym_hashable; destruct x, y; cbn in *; congruence. Qed.
+
+  (* ---------- [apart x y]: the two documents differ somewhere ---------- *)
+
+  Inductive apart : json -> json -> Prop :=
+  | Ap_kind x y : kind x <> kind y -> apart x y
+  | Ap_scalar x y : kind x = 0 -> kind y = 0 -> py_eq x y = false -> apart x y
+  | Ap_bool b1 b2 : b1 <> b2 -> apart (JBool b1) (JBool b2)
+  | Ap_len l l' : List.length l <> List.length l' -> apart (JList l) (JList l')
+  | Ap_elem l l' i x y :
+      nth_error l i = Some x -> nth_error l' i = Some y -> apart x y -> apart (JList l) (JList l')
+  | Ap_key_l k kvs kvs' :
+      is_directive k = false -> In k (map fst kvs) -> ~ In k (map fst kvs') -> apart (JMap kvs) (JMap kvs')
+  | Ap_key_r k kvs kvs' :
+      is_directive k = false -> ~ In k (map fst kvs) -> In k (map fst kvs') -> apart (JMap kvs) (JMap kvs')
+  | Ap_val k kvs kvs' v w :
+      is_directive k = false -> lookup k kvs = Some v -> lookup k kvs' = Some w -> apart v w ->
+      apart (JMap kvs) (JMap kvs').
+
+  Section Excl.
+    Variable E : json -> json -> bool.
+    Variable K : list json -> json -> option (list (string * json)).
+    Notation equivG := (equiv E K).
+
+    Ltac inv H := inversion H; subst; clear H; try discriminate; try (cbn in *; discriminate).
+
+    (* inversion principles with stable names *)
+    Lemma equiv_plain_r s u x : equivG s u x -> kind x = 0 -> plain_scalar u = true /\ py_eq u x = true.
+    Proof. intros H Hk. inv H; auto. Qed.
+    Lemma equiv_plain_l s x u : equivG s x u -> kind x = 0 -> plain_scalar u = true /\ py_eq x u = true.
+    Proof. intros H Hk. inv H; auto. Qed.
+    Lemma equiv_bool_r s u b : equivG s u (JBool b) -> u = JBool b.
+    Proof. intros H. inv H; auto. Qed.
+    Lemma equiv_bool_l s u b : equivG s (JBool b) u -> u = JBool b.
+    Proof. intros H. inv H; auto. Qed.
+    Lemma equiv_list_r u l : equivG false u (JList l) ->
+      exists tl, u = JList tl /\ List.length tl = List.length l /\
+        (forall i x y, nth_error tl i = Some x -> nth_error l i = Some y -> equivG false x y).
+    Proof. intros H. inv H; eauto. Qed.
+    Lemma equiv_list_l u l : equivG false (JList l) u ->
+      exists al, u = JList al /\ List.length l = List.length al /\
+        (forall i x y, nth_error l i = Some x -> nth_error al i = Some y -> equivG false x y).
+    Proof. intros H. inv H; eauto. Qed.
+
+    Definition map_facts (tk ak : list (string * json)) : Prop :=
+      exists sk mf, set_keys tk = Some sk /\ map_fields tk = Some mf /\
+        (forall k, is_directive k = false -> (In k (map fst tk) <-> In k (map fst ak))) /\
+        (forall k v w, is_directive k = false -> lookup k tk = Some v -> lookup k ak = Some w ->
+           lookup k mf = None -> equivG (mem_str k sk) v w).
+    Lemma equiv_map_r s u ak : equivG s u (JMap ak) -> exists tk, u = JMap tk /\ map_facts tk ak.
+    Proof. intros H. inv H. eexists; split; [reflexivity|]. exists sk, mf. auto. Qed.
+    Lemma equiv_map_l s u tk : equivG s (JMap tk) u -> exists ak, u = JMap ak /\ map_facts tk ak.
+    Proof. intros H. inv H. eexists; split; [reflexivity|]. exists sk, mf. auto. Qed.
+
+    Lemma map_facts_dfree tk ak k v w :
+      map_facts tk ak -> dfree (JMap tk) = true -> is_directive k = false ->
+      lookup k tk = Some v -> lookup k ak = Some w -> equivG false v w.
+    Proof.
+      intros (sk & mf & Hsk & Hmf & _ & Ho) Hf Hd Hv Hw.
+      rewrite (dfree_set_keys _ Hf) in Hsk. rewrite (dfree_map_fields _ Hf) in Hmf.
+      injection Hsk as <-. injection Hmf as <-. apply (Ho k v w); auto.
+    Qed.
+
+    Lemma map_facts_keys tk ak k :
+      map_facts tk ak -> is_directive k = false -> (In k (map fst tk) <-> In k (map fst ak)).
+    Proof. intros (sk & mf & _ & _ & Hk & _). apply Hk. Qed.
+
+    (* one directive-free expectation cannot describe two documents that are apart *)
+    Lemma apart_excl_actual : forall x y, apart x y ->
+      forall u, dfree u = true -> equivG false u x -> equivG false u y -> False.
+    Proof.
+      induction 1 as [x y Hk|x y Hx Hy Hne|b1 b2 Hb|l l' Hl|l l' i x y Hx Hy Hap IH
+                     |k kvs kvs' Hd Hin Hnin|k kvs kvs' Hd Hnin Hin|k kvs kvs' v w Hd Hv Hw Hap IH];
+        intros u Hf H1 H2.
+      - apply equiv_kind in H1, H2. congruence.
+      - destruct (equiv_plain_r _ _ _ H1 Hx) as [Pu E1]. destruct (equiv_plain_r _ _ _ H2 Hy) as [_ E2].
+        apply plain_scalar_kind in Hx, Hy.
+        rewrite (py_eq_plain_eucl u x y) in Hne; auto; discriminate.
+      - apply equiv_bool_r in H1, H2. congruence.
+      - apply equiv_list_r in H1 as (tl & -> & L1 & _). apply equiv_list_r in H2 as (tl' & [= <-] & L2 & _).
+        congruence.
+      - apply equiv_list_r in H1 as (tl & -> & L1 & P1). apply equiv_list_r in H2 as (tl' & [= <-] & L2 & P2).
+        assert (Hi : i < List.length tl) by (rewrite L1; apply nth_error_Some; congruence).
+        apply nth_error_Some in Hi. destruct (nth_error tl i) as [ui|] eqn:Eu; [|congruence].
+        apply (IH ui); eauto. eapply dfree_nth; eauto.
+      - apply equiv_map_r in H1 as (tk & -> & F1). apply equiv_map_r in H2 as (tk' & [= <-] & F2).
+        apply Hnin. apply (map_facts_keys _ _ _ F2 Hd). apply (map_facts_keys _ _ _ F1 Hd). exact Hin.
+      - apply equiv_map_r in H1 as (tk & -> & F1). apply equiv_map_r in H2 as (tk' & [= <-] & F2).
+        apply Hnin. apply (map_facts_keys _ _ _ F1 Hd). apply (map_facts_keys _ _ _ F2 Hd). exact Hin.
+      - apply equiv_map_r in H1 as (tk & -> & F1). apply equiv_map_r in H2 as (tk' & [= <-] & F2).
+        assert (Hk : In k (map fst tk)).
+        { apply (map_facts_keys _ _ _ F1 Hd). eapply lookup_In; eauto. }
+        apply In_lookup in Hk as [uv Huv].
+        apply (IH uv).
+        + eapply dfree_lookup; eauto.
+        + exact (map_facts_dfree _ _ _ _ _ F1 Hf Hd Huv Hv).
+        + exact (map_facts_dfree _ _ _ _ _ F2 Hf Hd Huv Hw).
+    Qed.
+
+    (* two directive-free expectations that are apart cannot describe the same document *)
+    Lemma apart_excl_expected : forall x y, apart x y ->
+      forall u, dfree x = true -> dfree y = true -> equivG false x u -> equivG false y u -> False.
+    Proof.
+      induction 1 as [x y Hk|x y Hx Hy Hne|b1 b2 Hb|l l' Hl|l l' i x y Hx Hy Hap IH
+                     |k kvs kvs' Hd Hin Hnin|k kvs kvs' Hd Hnin Hin|k kvs kvs' v w Hd Hv Hw Hap IH];
+        intros u Hfx Hfy H1 H2.
+      - apply equiv_kind in H1, H2. congruence.
+      - destruct (equiv_plain_l _ _ _ H1 Hx) as [Pu E1]. destruct (equiv_plain_l _ _ _ H2 Hy) as [_ E2].
+        apply plain_scalar_kind in Hx, Hy.
+        rewrite (py_eq_plain_eucl u x y) in Hne; auto; try discriminate;
+          rewrite py_eq_plain_sym; auto.
+      - apply equiv_bool_l in H1, H2. congruence.
+      - apply equiv_list_l in H1 as (al & -> & L1 & _). apply equiv_list_l in H2 as (al' & [= <-] & L2 & _).
+        congruence.
+      - apply equiv_list_l in H1 as (al & -> & L1 & P1). apply equiv_list_l in H2 as (al' & [= <-] & L2 & P2).
+        assert (Hi : i < List.length al) by (rewrite <- L1; apply nth_error_Some; congruence).
+        apply nth_error_Some in Hi. destruct (nth_error al i) as [ui|] eqn:Eu; [|congruence].
+        apply (IH ui); [exact (dfree_nth _ _ _ Hfx Hx)|exact (dfree_nth _ _ _ Hfy Hy)|eapply P1; eauto|eapply P2; eauto].
+      - apply equiv_map_l in H1 as (ak & -> & F1). apply equiv_map_l in H2 as (ak' & [= <-] & F2).
+        apply Hnin. apply (map_facts_keys _ _ _ F2 Hd). apply (map_facts_keys _ _ _ F1 Hd). exact Hin.
+      - apply equiv_map_l in H1 as (ak & -> & F1). apply equiv_map_l in H2 as (ak' & [= <-] & F2).
+        apply Hnin. apply (map_facts_keys _ _ _ F1 Hd). apply (map_facts_keys _ _ _ F2 Hd). exact Hin.
+      - apply equiv_map_l in H1 as (ak & -> & F1). apply equiv_map_l in H2 as (ak' & [= <-] & F2).
+        assert (Hk : In k (map fst ak)).
+        { apply (map_facts_keys _ _ _ F1 Hd). eapply lookup_In; eauto. }
+        apply In_lookup in Hk as [uv Huv].
+        apply (IH uv).
+        + exact (dfree_lookup _ _ _ Hfx Hv).
+        + exact (dfree_lookup _ _ _ Hfy Hw).
+        + exact (map_facts_dfree _ _ _ _ _ F1 Hfx Hd Hv Huv).
+        + exact (map_facts_dfree _ _ _ _ _ F2 Hfy Hd Hw Huv).
+    Qed.
+  End Excl.
+
+
+  (* ---------- one-step perturbations ---------- *)
+
+  Fixpoint upd_nth {A} (i : nat) (x : A) (l : list A) : list A :=
+    match l, i with
+    | [], _ => []
+    | _ :: r, O => x :: r
+    | h :: r, S i' => h :: upd_nth i' x r
+    end.
+
+  Lemma nth_upd_nth {A} (l : list A) : forall i x x', nth_error l i = Some x -> nth_error (upd_nth i x' l) i = Some x'.
+  Proof. induction l as [|h r IH]; intros [|i] x x'; cbn; try discriminate; eauto. Qed.
+
+  Lemma lookup_set_key {A} k (v : A) kvs : lookup k (set_key k v kvs) = Some v.
+  Proof.
+    induction kvs as [|[k0 v0] r IH]; cbn; [now rewrite String.eqb_refl|].
+    destruct (String.eqb k k0) eqn:E; cbn; rewrite E; auto.
+  Qed.
+
+  Lemma del_key_notin {A} k (kvs : list (string * A)) : ~ In k (map fst (del_key k kvs)).
+  Proof.
+    induction kvs as [|[k0 v0] r IH]; cbn; [tauto|].
+    destruct (String.eqb k k0) eqn:E; [exact IH|]. cbn. intros [H|H]; [|tauto].
+    subst. now rewrite String.eqb_refl in E.
+  Qed.
+
+  (* a single deviation made at the root of a document *)
+  Inductive dev_root : json -> json -> Prop :=
+  (* retyped: null/number/string <-> bool <-> array <-> object *)
+  | DR_kind x y : kind x <> kind y -> dev_root x y
+  (* changed leaf (or null/number/string retyped) — anything Python == tells apart;
+     1 -> 1.0 is NOT a deviation *)
+  | DR_scalar x y : kind x = 0 -> kind y = 0 -> py_eq x y = false -> dev_root x y
+  | DR_bool b : dev_root (JBool b) (JBool (negb b))
+  | DR_missing kvs k :
+      is_directive k = false -> In k (map fst kvs) -> dev_root (JMap kvs) (JMap (del_key k kvs))
+  | DR_extra kvs k v :
+      is_directive k = false -> ~ In k (map fst kvs) -> dev_root (JMap kvs) (JMap (kvs ++ [(k, v)]))
+  | DR_len l l' : List.length l <> List.length l' -> dev_root (JList l) (JList l')
+  (* reorder: a permutation that moves two distinct elements onto each other's place *)
+  | DR_swap l l' i j x y :
+      Permutation l l' -> nth_error l i = Some x -> nth_error l j = Some y -> apart x y ->
+      nth_error l' i = Some y -> nth_error l' j = Some x -> dev_root (JList l) (JList l').
+
+  (* ... or at any depth, below non-directive keys and list positions *)
+  Inductive deviates1 : json -> json -> Prop :=
+  | D_here x y : dev_root x y -> deviates1 x y
+  | D_elem l i x x' :
+      nth_error l i = Some x -> deviates1 x x' -> deviates1 (JList l) (JList (upd_nth i x' l))
+  | D_val kvs k v v' :
+      is_directive k = false -> lookup k kvs = Some v -> deviates1 v v' ->
+      deviates1 (JMap kvs) (JMap (set_key k v' kvs)).
+
+  Lemma dev_root_apart x y : dev_root x y -> apart x y.
+  Proof.
+    destruct 1 as [x y H|x y H1 H2 H3|b|kvs k H1 H2|kvs k v H1 H2|l l' H|l l' i j x y Hp Hi Hj Hap Hi' Hj'].
+    - now apply Ap_kind.
+    - now apply Ap_scalar.
+    - apply Ap_bool. destruct b; discriminate.
+    - eapply Ap_key_l; eauto. apply del_key_notin.
+    - eapply Ap_key_r; eauto. rewrite map_app. apply in_or_app. right. cbn. auto.
+    - now apply Ap_len.
+    - exact (Ap_elem l l' i x y Hi Hi' Hap).
+  Qed.
+
+  Lemma deviates1_apart x y : deviates1 x y -> apart x y.
+  Proof.
+    induction 1.
+    - now apply dev_root_apart.
+    - eapply Ap_elem; eauto. eapply nth_upd_nth; eauto.
+    - eapply Ap_val; eauto. apply lookup_set_key.
+  Qed.
+
+  (* An expectation without directives that describes the actual value rejects
+     every value that differs from it somewhere ... *)
+  Theorem apart_actual_fails t a a' :
+    dfree t = true -> equivX false t a -> apart a a' -> tmatch t a' = MDone false.
+  Proof.
+    intros Hf He Hap.
+    destruct (dfree_no_raise (depth t) t a' false Hf (le_n _)) as [[|] Hb]; [|exact Hb].
+    exfalso. apply tmatch_exact in Hb. eapply apart_excl_actual; eauto.
+  Qed.
+
+  (* ... in particular every single deviation, at any depth *)
+  Theorem single_deviation_fails t a a' :
+    dfree t = true -> equivX false t a -> deviates1 a a' -> tmatch t a' = MDone false.
+  Proof. intros Hf He Hd. apply (apart_actual_fails t a a'); auto. now apply deviates1_apart. Qed.
+
+  (* the property's own quantifier: perturb the ASSERTION, keep the behaviour *)
+  Theorem apart_expected_fails t t' a :
+    dfree t = true -> dfree t' = true -> equivX false t a -> apart t t' -> tmatch t' a = MDone false.
+  Proof.
+    intros Hf Hf' He Hap.
+    destruct (dfree_no_raise (depth t') t' a false Hf' (le_n _)) as [[|] Hb]; [|exact Hb].
+    exfalso. apply tmatch_exact in Hb. eapply apart_excl_expected; eauto.
+  Qed.
+
+  Theorem single_deviation_of_assertion_fails t t' a :
+    dfree t = true -> dfree t' = true -> equivX false t a -> deviates1 t t' -> tmatch t' a = MDone false.
+  Proof. intros Hf Hf' He Hd. apply (apart_expected_fails t t' a); auto. now apply deviates1_apart. Qed.
+
+End WithKeyText.
